@@ -223,6 +223,11 @@ def run(chk: Check):
                 f"{len(b)} " + " ".join(frac_s(Fraction(x)) for x in b) for b in bounds)
                 + f" {len(prec)} " + " ".join(frac_s(Fraction(x)) for x in prec))
             meta.append(("buildq", bounds, prec, False))
+    # spaces whose size does not fit a machine word (the product of the grid lengths is an unbounded integer): 5 x 10001 points, 64 x 2, 20 x 11
+    for lo_, hi_, pr_ in (([0.0] * 5, [1.0] * 5, [1e-4] * 5), ([0.0] * 64, [1.0] * 64, [1.0] * 64), ([-1.0] * 20, [1.0] * 20, [0.2] * 20),
+                          ([0.0] * 4, [rng.choice([7.0, 10.0])] * 4, [1e-4] * 4)):
+        reqs.append(f"ss.build {f2h(TOL)} " + req_lists([lo_, hi_], pr_)); meta.append(("build", [lo_, hi_], pr_, False))
+        chk.count("space_size_beyond_2^63")
     # the witness of the repaired small-precision defect always runs (theorem small_precision_repaired)
     reqs.append(f"ss.build {f2h(TOL)} " + req_lists([[0.0], [1e-6]], [5e-8])); meta.append(("build", [[0.0], [1e-6]], [5e-8], False))
 
